@@ -46,6 +46,17 @@ Get ==
   /\ nret' = nret + 1
   /\ UNCHANGED <<stream, pos, status, buf, nchunk, done>>
 
+\* one step of an iteration that is then abandoned: it = iter(parser); next(it).
+\* Exactly one message is taken; the others stay retrievable in order.
+IterOne ==
+  /\ ~done /\ nret < MaxRet
+  /\ IF queue = <<>>
+     THEN hist' = Append(hist, H("iter1", 0, <<>>)) /\ UNCHANGED <<queue, out>>
+     ELSE /\ hist' = Append(hist, H("iter1", 1, <<Head(queue)>>))
+          /\ queue' = Tail(queue) /\ out' = Append(out, Head(queue))
+  /\ nret' = nret + 1
+  /\ UNCHANGED <<stream, pos, status, buf, nchunk, done>>
+
 Pending ==
   /\ ~done /\ nret < MaxRet
   /\ hist' = Append(hist, H("pending", Len(queue), <<>>))
@@ -60,7 +71,7 @@ IterAll ==
   /\ done' = (pos = Len(stream))
   /\ UNCHANGED <<stream, pos, status, buf, nchunk>>
 
-Next == (\E k \in 1..Len(stream) : FeedChunk(k)) \/ Get \/ Pending \/ IterAll
+Next == (\E k \in 1..Len(stream) : FeedChunk(k)) \/ Get \/ IterOne \/ Pending \/ IterAll
 Spec == Init /\ [][Next]_vars
 
 \* ---- properties ----
